@@ -13,6 +13,7 @@ import (
 	"strings"
 	"sync"
 	"sync/atomic"
+	"time"
 
 	"github.com/google/badwolf/triple"
 	"github.com/google/badwolf/triple/literal"
@@ -31,6 +32,8 @@ func il(v int64) *triple.Object   { return model.OL(model.L(literal.Int64, v)) }
 func fl(v float64) *triple.Object { return model.OL(model.L(literal.Float64, v)) }
 func tx(s string) *triple.Object  { return model.OL(model.L(literal.Text, s)) }
 
+var zt = time.Date(2016, 1, 1, 0, 0, 0, 500000000, time.UTC)
+
 func universe(n int) []*triple.Triple {
 	a, b, c := bqlm.NA, bqlm.NB, bqlm.NC
 	p := bqlm.PImm
@@ -45,6 +48,9 @@ func universe(n int) []*triple.Triple {
 		model.T(b, W, il(5)),
 		model.T(a, F, fl(0.5)),
 		model.T(b, F, fl(-1.25)),
+		// the same instant written in two zones: one predicate value, hence one group / one distinct value
+		model.T(a, model.PT("t", zt.In(time.FixedZone("", 3600))), il(1)),
+		model.T(b, model.PT("t", zt.In(time.UTC)), il(1)),
 		model.T(c, p, tx("1")),
 		model.T(a, F, fl(2.0)),
 		model.T(c, W, il(7)),
@@ -72,6 +78,7 @@ func patterns() [][]bqlm.Clause {
 		{{S: bindT("?s"), P: P, O: bindT("?o")}, {S: bindT("?s"), P: Wt, O: bindT("?n")}},
 		{{S: bindT("?s"), P: P, O: bindT("?o")}, {S: bindT("?o"), P: P, O: bindT("?z")}},
 		{{S: bindT("?s"), P: P, O: bqlm.Term{Kind: bqlm.Bind, Name: "?o", TypeAlias: "?t"}}},
+		{{S: bindT("?s"), P: bqlm.Term{Kind: bqlm.AnchorBind, ID: "t", Name: "?at"}, O: bindT("?o")}},
 	}
 }
 
@@ -247,7 +254,7 @@ func main() {
 		return ok, d
 	})
 	r.MaybeReplay()
-	n := r.Pick(10, 14)
+	n := r.Pick(12, 16)
 	u := universe(n)
 	pats := patterns()
 	var allQ [][]*bqlm.Query
